@@ -264,10 +264,16 @@ def c18(tier, seed):
 @check("C16")
 def c16(tier, seed):
     r = Report("C16", tier, "other", seed)
-    n = check_static.c16_structural(r, ["K1", "K2"])
+    hits = []
+    n = check_static.c16_structural(r, ["K1", "K2"], addr_hits=hits)
     r.floor("workspace instances audited", n, 1500)
     from . import check_bytes
     check_bytes.run(r, tier)
+    check_bytes.extent_sweep(r)
+    if hits:
+        check_bytes.alignment_sweep(r, hits)
+    else:
+        r.ok("R16.4", "no address-inspecting call (align_to, align_offset, addr, pointer-to-integer cast) in workspace code")
     r.assumptions = ["safe Rust (and core, block-buffer, generic-array, zerocopy) never accesses memory outside a slice",
                      "a rustc nightly's MIR shows every raw-pointer dereference, transmute and union access"]
     return r.finish(
@@ -553,7 +559,7 @@ def c02(tier, seed):
             jobs.append((check_chacha.c02_histories, ("K1", nm, tier, "R2.3", (i, nchunks))))
     rets = par.run(r, jobs)
     nh = sum(x for x in rets[1:] if x)
-    r.floor("histories evaluated", nh, 500 if tier == "quick" else 6000)
+    r.floor("histories evaluated", nh, 1000 if tier == "quick" else 20000)
     r.floor("seek type/value instances", rets[0] or 0, 150)
     r.assumptions = ["ChaCha::refill / refill4 are replaced by their C14 semantics (block at the 64-bit counter as an uninterpreted function of the state rows, counter + 1 / + 4); C14 decides that the real functions are exactly that",
                      "histories are a finite family (see coverage.rule); each covers all keys, nonces and data contents",
